@@ -196,53 +196,60 @@ def run(ctx):
                     # data_length >= 1 / suppression flag: take the "send" side
                     if bb == b:
                         return ("send", {True: send_edge})
-                    if o[0] == "binop" and o[1] in ("Ge", "Gt"):
-                        return ("nonempty", {True: bs2[1]})
-                    if o[0] == "call" and o[1].endswith("is_some"):
-                        return ("is_some", {True: bs2[1]})
+                    if o[0] == "call" and o[1].endswith("is_some") and f.term(bs2[2])["t"] == "call" and call_matches(f.term(bs2[2]), r"core::panicking::"):
+                        return ("is_some", {True: bs2[1]})     # assert!(x.is_some()): the failing side is a panic, not a behaviour
                 return None
-            seen_calls = []
-            def on_block(bb):
-                t = f.term(bb)
-                if t["t"] == "call":
-                    seen_calls.append((bb, t))
             asg = collections.defaultdict(lambda: True)
-            end, visited = shared.walk_decision(f, start_bb, atom_of, asg, stop, on_block)
-            return seen_calls
+            paths = shared.walk_paths(f, start_bb, atom_of, asg, stop)
+            results = []
+            for end, visited in paths:
+                if end is None:
+                    continue
+                results.append([(bb, f.term(bb)) for bb in visited if f.term(bb)["t"] == "call"])
+            return results
         rowsB = {}
         for te in (None, "Identity", "Chunked"):
-            hc = walk_te(hb[0], {wm[0]}, te)
-            pushes = []
-            for bb2, t in hc:
-                if call_matches(t, r"Vec::<T(, A)?>::push$") and "headers" in arg_origin_fields(f, t):
-                    o = f.origin(t["args"][1])
-                    fb = [x for x in origin_calls(o) if x[1].endswith("common::Header::from_bytes")]
-                    names = []
-                    if fb:
-                        for a in fb[0][2]:
-                            cs = [x[1] for x in origin_walk(a) if x[0] == "const" and isinstance(x[1], bytes)]
-                            names.append(cs[0] if len(cs) == 1 else None)
-                    pushes.append((names, o))
-            bc = walk_te(bbody[0], set(f.returns()), te)
-            body = sorted({("encoder" if call_matches(t, r"chunked_transfer::Encoder::<W>::new$") else "copy") for bb2, t in bc
-                           if call_matches(t, r"chunked_transfer::Encoder::<W>::new$|^std::io::copy")})
-            rowsB[te] = ([p[0] for p in pushes], body)
-            ctx.paths += 2
-            if te == "Chunked":
-                ok = [p[0] for p in pushes] == [[b"Transfer-Encoding", b"chunked"]] and body == ["copy", "encoder"]
-            elif te == "Identity":
-                ok = len(pushes) == 1 and pushes[0][0][:1] == [b"Content-Length"] and body == ["copy"]
-                if ok:
-                    # the value is the formatted declared length: `format!("{}", data_length)`
-                    o = pushes[0][1]
-                    tpl_ok = any(x[0] == "const" and isinstance(x[1], bytes) and decode_template(x[1]) == ["ARG"] for x in origin_walk(o))
-                    disp = [x for x in origin_calls(o) if re.search(r"Argument::<'\w+>::new_display", x[1])]
-                    ok = tpl_ok and len(disp) == 1 and origin_has_call(disp[0][2][0], r"Option::<T>::unwrap$")
-            else:
-                ok = pushes == [] and body == []
-            ctx.ob("C04.2", "%s|framing|%s" % (f.id, te), "coding %s: framing header and body transfer agree (%s)" % (
+            hcs = walk_te(hb[0], {wm[0]}, te)
+            bcs = walk_te(bbody[0], set(f.returns()), te)
+            ctx.paths += len(hcs) + len(bcs)
+            ok = bool(hcs) and bool(bcs)
+            shown = None
+            for hc in hcs:
+                pushes = []
+                for bb2, t in hc:
+                    if call_matches(t, r"Vec::<T(, A)?>::push$") and "headers" in arg_origin_fields(f, t):
+                        o = f.origin(t["args"][1])
+                        fb = [x for x in origin_calls(o) if x[1].endswith("common::Header::from_bytes")]
+                        names = []
+                        if fb:
+                            for a in fb[0][2]:
+                                cs = [x[1] for x in origin_walk(a) if x[0] == "const" and isinstance(x[1], bytes)]
+                                names.append(cs[0] if len(cs) == 1 else None)
+                        pushes.append((names, o))
+                shown = [p[0] for p in pushes]
+                if te == "Chunked":
+                    ok = ok and [p[0] for p in pushes] == [[b"Transfer-Encoding", b"chunked"]]
+                elif te == "Identity":
+                    okh = len(pushes) == 1 and pushes[0][0][:1] == [b"Content-Length"]
+                    if okh:
+                        o = pushes[0][1]
+                        tpl_ok = any(x[0] == "const" and isinstance(x[1], bytes) and decode_template(x[1]) == ["ARG"] for x in origin_walk(o))
+                        disp = [x for x in origin_calls(o) if re.search(r"Argument::<'\w+>::new_display", x[1])]
+                        okh = tpl_ok and len(disp) == 1 and origin_has_call(disp[0][2][0], r"Option::<T>::unwrap$")
+                    ok = ok and okh
+                else:
+                    ok = ok and pushes == []
+            for bc in bcs:
+                body = sorted({("encoder" if call_matches(t, r"chunked_transfer::Encoder::<W>::new$") else "copy") for bb2, t in bc
+                               if call_matches(t, r"chunked_transfer::Encoder::<W>::new$|^std::io::copy")})
+                want = {"Chunked": ["copy", "encoder"], "Identity": ["copy"], None: []}[te]
+                # (an identity body of length 0 may skip the copy)
+                ok = ok and (body == want or (te == "Identity" and body == []))
+            if te == "Identity":
+                ok = ok and any(sorted({"copy" for bb2, t in bc if call_matches(t, r"^std::io::copy")}) == ["copy"] for bc in bcs)
+            ctx.ob("C04.2", "%s|framing|%s" % (f.id, te), "coding %s: framing header and body transfer agree on every path (%s)" % (
                 te, {"Chunked": "`Transfer-Encoding: chunked` + chunk encoder", "Identity": "`Content-Length: <len>` + plain copy", None: "no framing header, no body"}[te]),
-                ok, f.loc(hb[0]), str(rowsB[te]))
+                ok, f.loc(hb[0]), "framing headers pushed: %s (%d header paths, %d body paths)" % (shown, len(hcs), len(bcs)))
     # upgrade => transfer_encoding = None before the header match
     ups = []
     for bb in sorted(f.live_blocks()):
